@@ -63,6 +63,10 @@ func (s *Sim) Do(a Action) (string, error) {
 	switch a.Kind {
 	case "step":
 		obs, err = s.Step(a.Tok, a.Env)
+		if err == errNotEnabled {
+			err = nil
+			res = "noop"
+		}
 	case "lease":
 		obs, err = s.LeaseLoss(a.Tok)
 	case "trigger":
@@ -241,15 +245,15 @@ func genConfig(r *rng.R, feat Features) Config {
 
 type Features struct {
 	Callbacks, Timeouts, TwoTimeouts, Hooks, Delete, Parallel, Lag, PauseAfter, Retry, SelfLoops bool
-	Faults                                                                                        int // per-mille of operations with an injected fault
-	BadOutcomes                                                                                   int // per-mille of user-function outcomes that are not the declared advance
-	Nested                                                                                        bool
-	Stale                                                                                         bool
-	Adversary                                                                                     bool
-	Handles                                                                                       bool
-	Ctl                                                                                           bool
-	LeaseLoss                                                                                     bool
-	APIFaults                                                                                     bool
+	Faults                                                                                       int // per-mille of operations with an injected fault
+	BadOutcomes                                                                                  int // per-mille of user-function outcomes that are not the declared advance
+	Nested                                                                                       bool
+	Stale                                                                                        bool
+	Adversary                                                                                    bool
+	Handles                                                                                      bool
+	Ctl                                                                                          bool
+	LeaseLoss                                                                                    bool
+	APIFaults                                                                                    bool
 }
 
 var AllFeatures = Features{Callbacks: true, Timeouts: true, TwoTimeouts: false, Hooks: true, Delete: true, Parallel: true, Lag: true, PauseAfter: true, Retry: true,
@@ -643,6 +647,45 @@ func ParseConfig(line string) (Config, error) {
 		}
 	}
 	return c, nil
+}
+
+// ReplayD is Replay returning the first disagreement as (impl line, model line).
+func ReplayD(d *leandrv.Driver, h History) ([]report.Violation, []string, []string, error) {
+	cfg, err := ParseConfig(h.Cfg)
+	if err != nil {
+		return nil, nil, nil, err
+	}
+	s, err := NewSim(cfg)
+	if err != nil {
+		return nil, nil, nil, err
+	}
+	d.Ask(cfg.Line())
+	var out, diffs []string
+	g := &Gen{R: rng.New(1), C: cfg}
+	for _, l := range h.Actions {
+		a, err := ParseAction(l)
+		if err != nil {
+			return nil, nil, nil, err
+		}
+		line, err := s.Do(a)
+		out = append(out, l, "      "+line)
+		if !d.Null && len(diffs) == 0 {
+			ans, _ := d.Ask(l)
+			if ans != line {
+				diffs = []string{line, ans}
+			}
+		}
+		if err != nil {
+			return s.W.Mon.Viol, out, diffs, err
+		}
+	}
+	if ok, _ := s.Drain(g, 400, nil); ok {
+		s.W.Mon.atQuiescence(s)
+	}
+	if err := s.Stop(); err != nil {
+		return s.W.Mon.Viol, out, diffs, err
+	}
+	return s.W.Mon.Viol, out, diffs, nil
 }
 
 // Replay executes a recorded history on the real code (and the model when available), printing each observation.
